@@ -20,6 +20,35 @@ use framehop::{
     MustNotAllocateDuringUnwind, Unwinder,
 };
 
+// ---------- a scripted implementation of the public Unwinder trait ----------
+// UnwindIterator is generic in the unwinder: whatever unwind_frame returns, the iterator has to turn it into
+// frames the documented way (C17).  The crate's own unwinders no longer return Some(0); a scripted one can.
+#[derive(Clone)]
+struct ScriptedUnwinder {
+    answers: Arc<Mutex<Vec<Result<Option<u64>, Error>>>>,
+}
+impl Unwinder for ScriptedUnwinder {
+    type UnwindRegs = ();
+    type Cache = ();
+    type Module = ();
+    fn add_module(&mut self, _m: ()) {}
+    fn remove_module(&mut self, _s: u64) {}
+    fn max_known_code_address(&self) -> u64 {
+        0
+    }
+    fn unwind_frame<F>(&self, _a: FrameAddress, _r: &mut (), _c: &mut (), _f: &mut F) -> Result<Option<u64>, Error>
+    where
+        F: FnMut(u64) -> Result<u64, ()>,
+    {
+        let mut v = self.answers.lock().unwrap();
+        if v.is_empty() {
+            Ok(None)
+        } else {
+            v.remove(0)
+        }
+    }
+}
+
 // ---------- counting allocator ----------
 // Counts allocator calls made by the thread that runs the script while COUNT_ON is set; the
 // watchdog thread (and any other) is not counted, so the count is deterministic.
@@ -924,6 +953,36 @@ fn run<A: ArchOps>(lines: Vec<String>, hang_ms: u64) {
                     }
                     _ => "bad".into(),
                 }
+            }
+            "iterscript" => {
+                // iterscript <pc> <calls> <via_trait> <answer>*   answer = 0x.. (Some) | none | err
+                let pc = t.u64();
+                let n = t.u64() as usize;
+                let via = t.u64() != 0;
+                let mut answers = Vec::new();
+                while !t.peek().is_empty() {
+                    let a = t.next();
+                    answers.push(match a {
+                        "none" => Ok(None),
+                        "err" => Err(Error::DidNotAdvance),
+                        x => Ok(Some(u64::from_str_radix(x.trim_start_matches("0x"), 16).unwrap_or(0))),
+                    });
+                }
+                let u = ScriptedUnwinder { answers: Arc::new(Mutex::new(answers)) };
+                let mut cache = ();
+                let mut rs = |_a: u64| -> Result<u64, ()> { Err(()) };
+                let mut it = u.iter_frames(pc, (), &mut cache, &mut rs);
+                let mut outv = Vec::new();
+                for _ in 0..n {
+                    let r = if via { fallible_iterator::FallibleIterator::next(&mut it) } else { it.next() };
+                    outv.push(match r {
+                        Ok(Some(FrameAddress::InstructionPointer(a))) => format!("ok ip 0x{:x}", a),
+                        Ok(Some(FrameAddress::ReturnAddress(a))) => format!("ok ra 0x{:x}", u64::from(a)),
+                        Ok(None) => "ok none".to_string(),
+                        Err(e) => fmt_err(&e),
+                    });
+                }
+                format!("iterscript {}", outv.join(" | "))
             }
             "manual" => {
                 // the loop a caller writes by hand with unwind_frame (oracle for C17)
